@@ -59,6 +59,12 @@ def scenario(i):  # noqa: C901
         tree = (U.CShadow([L[0], {k[6]: L[1], k[7]: L[2], k[8]: L[3]}], meta=m1), U.CUser([L[4], TNT(L[5], L[6])], meta=m1), None, U.Point(L[7], [L[8]]))
         rest = (U.CShadow([L[9], {k[8]: L[10], k[7]: L[11], k[6]: L[12]}], meta=m2), U.CUser([L[13], TNT(L[14], L[15])], meta=m2), None, U.Point(L[0], [L[1]]))
         ns = U.NS
+    elif i == 6:
+        # mixed key types: the plain sort fails with TypeError and the (type name, key) fallback sort runs,
+        # comparing the TKeys among themselves (callbacks inside the *fallback* stage)
+        tree = {7: L[0], k[1]: [L[1]], k[0]: L[2], 'x': (L[3],), k[2]: defaultdict(int, {k[4]: L[4], 3: L[5], k[3]: L[6]})}
+        rest = {k[0]: L[7], 'x': (L[8],), k[1]: [L[9]], 7: L[10], k[2]: {3: L[11], k[3]: L[12], k[4]: [L[13]]}}
+        ns = ''
     else:
         tree = deque([{k[0]: TNode([L[0], L[1]], meta=m1)}, defaultdict(list, {k[2]: TNT(L[2], L[3]), k[1]: L[4]}), OrderedDict([(k[3], U.CList([L[5]], meta=m1))])], maxlen=5)
         rest = deque([{k[0]: TNode([L[6], L[7]], meta=m2)}, OrderedDict([(k[1], L[8]), (k[2], TNT(L[9], L[10]))]), {k[3]: U.CList([L[11]], meta=m2)}])
@@ -166,13 +172,13 @@ def build_ctx(si):
     c['rspec'] = optree.tree_structure(s['rest'], **kwn)
     leaf = optree.treespec_leaf()
     keys = [x for x in s['tracked'] if isinstance(x, TKey)]
-    c['specdict'] = {keys[1]: leaf, keys[0]: c['spec'], keys[2]: leaf}
+    c['specdict'] = {keys[1]: leaf, keys[0]: c['spec'], keys[2]: leaf} if si != 6 else {keys[1]: leaf, 5: c['spec'], keys[0]: leaf, 'y': leaf}
     c['speccoll'] = TNode([c['spec'], leaf], meta=s['tracked'][-1]) if s['ns'] == NSF else U.CSeq([c['spec'], leaf], meta=s['tracked'][-1])
     c['tracked'] = s['tracked'] + [s['tree'], s['rest'], c['spec'], c['spec2'], c['rspec'], c['leaves'], c['specdict'], c['speccoll']]
     return c
 
 
-N_SCEN = 6
+N_SCEN = 7
 
 
 def journal_cases(shard):
